@@ -85,6 +85,9 @@ type Reg struct {
 	Name   string   `json:"name,omitempty"`
 	Group  string   `json:"group,omitempty"`
 	As     []string `json:"as,omitempty"`
+	// Nested: identities this constructor resolves from its injected Scope while it
+	// runs (service-locator style), on its first invocation only.
+	Nested []Dep `json:"nested,omitempty"`
 }
 
 type Spec struct {
@@ -222,6 +225,7 @@ type Call struct {
 	Args    []Arg
 	Outcome string // ok | err | nil | panic
 	Outs    []*Inst
+	Nested  []Arg // results of the nested resolutions (Kind "err:<class>" on failure)
 }
 
 type Event struct {
@@ -497,6 +501,33 @@ func (w *World) Body(r *Reg, ft reflect.Type) func(args []reflect.Value) []refle
 		} else {
 			for i, d := range r.Deps {
 				call.Args = append(call.Args, decodeArg(args[i], d))
+			}
+		}
+		if len(r.Nested) > 0 && call.Serial == 1 {
+			// resolve from the injected scope while this constructor is running
+			var sc godi.Scope
+			for _, a := range call.Args {
+				if a.Kind == "scope" {
+					sc, _ = a.Ref.(godi.Scope)
+				}
+			}
+			if sc != nil {
+				w.mu.Unlock()
+				for _, nd := range r.Nested {
+					var v any
+					var err error
+					if nd.Key != "" {
+						v, err = sc.GetKeyed(TypeOf(nd.T), nd.Key)
+					} else {
+						v, err = sc.Get(TypeOf(nd.T))
+					}
+					if err != nil {
+						call.Nested = append(call.Nested, Arg{Kind: "err:" + ClassOf(err), Dep: nd})
+					} else {
+						call.Nested = append(call.Nested, decodeArg(reflect.ValueOf(v), nd))
+					}
+				}
+				w.mu.Lock()
 			}
 		}
 		fault := w.Faults[fmt.Sprintf("%d:%d", r.ID, call.Serial)]
